@@ -176,7 +176,10 @@ def c17e(ctx, tu):
                                                                          or e.get("op") == "<<"))
             g = [bid for bid in fn.blocks if cfg.cond_of(fn, bid) is not None and
                  erase(str(cond_shape(cfg.cond_of(fn, bid))[0][1])) == AG + "::t"]
-            ok = len(g) == 1 and bool(streams) and all(cfg.edge_dominates(fn, (g[0], 0), b) for b, _, _ in streams)
+            ok = len(g) == 1 and bool(streams)
+            if ok:
+                pol = cond_shape(cfg.cond_of(fn, g[0]))[1]
+                ok = all(cfg.edge_dominates(fn, (g[0], 0 if pol else 1), b) for b, _, _ in streams)
             if name.endswith("trace_params"):
                 ok = ok and any(qe(e) == "trompeloeil::stream_params" and e["args"][1][:2] == ["param", 0] for _, _, e in streams)
             ctx.ob("C17.e", name, ok, pattern=fn.pat, unit=tu.name, inst=fn.q,
